@@ -9,7 +9,6 @@ import (
 	"strconv"
 	"strings"
 	"sync"
-	"sync/atomic"
 	"testing"
 	"time"
 )
@@ -72,6 +71,12 @@ type WorkerOut struct {
 	Replay        map[string]any    `json:"replay,omitempty"`
 }
 
+var (
+	onStuck       func(seed uint64, after time.Duration)
+	shrinkOut     *WorkerOut
+	shrinkOrigLen int
+)
+
 func TestSim(t *testing.T) {
 	jp := os.Getenv("VERIF_JOB")
 	if jp == "" {
@@ -105,6 +110,34 @@ func TestSim(t *testing.T) {
 
 	out := &WorkerOut{Stats: map[string]int{}, Foreign: map[string]int{}}
 	start := time.Now()
+	// watchdog (real time, outside every bubble): an execution that does not end is one in which some goroutine is
+	// blocked where the simulator cannot see it (e.g. on a sync.Mutex held across a parked call), so that
+	// quiescence never comes. The mode's onStuck hook records what it has; the output is written and the process ends.
+	stuckAfter := 300 * time.Second
+	if v, err := strconv.Atoi(os.Getenv("VERIF_STUCK_S")); err == nil && v > 0 {
+		stuckAfter = time.Duration(v) * time.Second
+	}
+	if job.Mode == "shrink" && stuckAfter > 30*time.Second {
+		stuckAfter = 30 * time.Second // a shrinking candidate that hangs is simply not a candidate
+	}
+	go func() {
+		for {
+			time.Sleep(time.Second)
+			st := execStart.Load()
+			if st == 0 || time.Since(time.Unix(0, st)) < stuckAfter {
+				continue
+			}
+			if onStuck != nil {
+				onStuck(execSeed.Load(), stuckAfter)
+			} else {
+				out.HarnessErrors = append(out.HarnessErrors, fmt.Sprintf("seed=%d: execution did not end within %v of real time", execSeed.Load(), stuckAfter))
+			}
+			out.WallS = time.Since(start).Seconds()
+			b, _ := json.Marshal(out)
+			_ = os.WriteFile(job.Out, b, 0o644)
+			os.Exit(0)
+		}
+	}()
 	switch job.Mode {
 	case "replay":
 		doReplay(e, &job, out)
@@ -197,47 +230,26 @@ func doRuns(e *Engine, job *Job, out *WorkerOut, start time.Time) {
 			out.Violations = append(out.Violations, ViolOut{Violation: res.Viol, Seed: seed, Replay: rf, TapeLen: len(res.Tape), OrigLen: len(res.Tape)})
 		}
 	}
-	// watchdog (real time, outside every bubble): a run that does not end is one in which some goroutine is blocked
-	// where the simulator cannot see it (e.g. on a sync.Mutex held across a parked call), so that quiescence never
-	// comes. The worker then hands in what it has (violations found so far stay reportable) and names the seed.
+	// a run that does not end (see watchdog in TestSim): the worker hands in what it has - violations found so far
+	// stay reportable - and names the seed
 	var wmu sync.Mutex
-	var curSeed atomic.Uint64
-	var curStart atomic.Int64
-	stuckAfter := 300 * time.Second
-	if v, err := strconv.Atoi(os.Getenv("VERIF_STUCK_S")); err == nil && v > 0 {
-		stuckAfter = time.Duration(v) * time.Second
-	}
-	go func() {
-		for {
-			time.Sleep(time.Second)
-			st := curStart.Load()
-			if st == 0 || time.Since(time.Unix(0, st)) < stuckAfter {
-				continue
-			}
-			wmu.Lock()
-			out.HarnessErrors = append(out.HarnessErrors, fmt.Sprintf("seed=%d: run did not end within %v of real time (a goroutine is blocked outside the simulator's control); worker abandoned after %d runs", curSeed.Load(), stuckAfter, out.Runs))
-			out.Stats["stuck_runs"]++
-			for d := range digs {
-				out.Digests = append(out.Digests, d)
-			}
-			for d := range ntdigs {
-				out.NontrivDig = append(out.NontrivDig, d)
-			}
-			out.WallS = time.Since(start).Seconds()
-			b, _ := json.Marshal(out)
-			_ = os.WriteFile(job.Out, b, 0o644)
-			os.Exit(0)
+	onStuck = func(seed uint64, after time.Duration) {
+		wmu.Lock()
+		out.HarnessErrors = append(out.HarnessErrors, fmt.Sprintf("seed=%d: run did not end within %v of real time (a goroutine is blocked outside the simulator's control); worker abandoned after %d runs", seed, after, out.Runs))
+		out.Stats["stuck_runs"]++
+		for d := range digs {
+			out.Digests = append(out.Digests, d)
 		}
-	}()
+		for d := range ntdigs {
+			out.NontrivDig = append(out.NontrivDig, d)
+		}
+	}
 	for i := job.Worker; i < job.MaxRuns; i += job.Workers {
 		if job.BudgetS > 0 && time.Now().After(deadline) {
 			break
 		}
 		seed := Mix(job.BaseSeed, job.Prop, uint64(i))
-		curSeed.Store(seed)
-		curStart.Store(time.Now().UnixNano())
 		res := execute(e, job.Prop, job.Tier, seed, NewGenTape(seed), job.Opt)
-		curStart.Store(0)
 		wmu.Lock()
 		handle(i, seed, res, job.Opt)
 		wmu.Unlock()
@@ -247,9 +259,7 @@ func doRuns(e *Engine, job *Job, out *WorkerOut, start time.Time) {
 				break
 			}
 			opt := withOpt(job.Opt, "sub", sub)
-			curStart.Store(time.Now().UnixNano())
 			sres := execute(e, job.Prop, job.Tier, seed, NewGenTape(seed), opt)
-			curStart.Store(0)
 			wmu.Lock()
 			out.Stats["subruns"]++
 			handle(-1, seed, sres, opt)
@@ -296,7 +306,9 @@ func doShrink(e *Engine, job *Job, out *WorkerOut) {
 		out.Replay = map[string]any{"same_sig": false, "note": "violation did not recur when re-executed before shrinking", "trace": orig.Trace}
 		return
 	}
+	shrinkOut, shrinkOrigLen = out, rf.OrigLen
 	min := shrink(e, job, rf.Seed, orig)
+	onStuck = nil
 	p := writeReplay(job, e, rf.Seed, min, rf.OrigLen, "")
 	out.Violations = append(out.Violations, ViolOut{Violation: min.Viol, Seed: rf.Seed, Replay: p, TapeLen: len(min.Tape), OrigLen: rf.OrigLen})
 }
@@ -326,7 +338,11 @@ func doReplay(e *Engine, job *Job, out *WorkerOut) {
 		out.HarnessErrors = append(out.HarnessErrors, err.Error())
 		return
 	}
+	onStuck = func(_ uint64, after time.Duration) {
+		out.Replay = map[string]any{"same_sig": false, "same_digest": false, "note": fmt.Sprintf("replay did not end within %v of real time", after)}
+	}
 	res := execute(e, rf.Property, rf.Tier, rf.Seed, NewReplayTape(rf.Tape), rf.Opt)
+	onStuck = nil
 	out.Runs = 1
 	rep := map[string]any{"digest": res.Digest, "expected_digest": rf.Digest, "trace": res.Trace}
 	if res.HarnessErr != "" {
@@ -351,6 +367,12 @@ func shrink(e *Engine, job *Job, seed uint64, orig *Result) *Result {
 	deadline := time.Now().Add(time.Duration(budget * float64(time.Second)))
 	best := orig
 	sig := orig.Viol.Sig
+	onStuck = func(uint64, time.Duration) {
+		// the candidate under test hangs: the best tape so far is the result
+		p := writeReplay(job, e, seed, best, shrinkOrigLen, "")
+		shrinkOut.Violations = append(shrinkOut.Violations, ViolOut{Violation: best.Viol, Seed: seed, Replay: p, TapeLen: len(best.Tape), OrigLen: shrinkOrigLen})
+		shrinkOut.Stats["shrink_candidate_stuck"]++
+	}
 	try := func(cand []uint32) bool {
 		if time.Now().After(deadline) {
 			return false
